@@ -9,6 +9,8 @@ Every participant of a schedule is a separate forked process.  In the worker - a
     is no NIC and no bpffs here) are replaced by recorders that keep the shared "kernel" state in
     files under root: the pin file's content is the table it refers to, root/kernel/attached says
     who attached a dispatcher and which table it uses; each is a gated step as well;
+  * the recorders for connect, create_map, attach, obj_pin and obj_get raise OSError(ENOBUFS) when
+    the schedule marks the step as failing (f): the environment the start-up must cope with;
   * random.randrange (new ethertype, FMMU window number) hands out the values the controller supplies
     with "go" (a counting fallback otherwise), because the specification leaves them free: the value
     the schedule chose, preceded - for the FMMU window - by one adversarial draw, a number whose bit
@@ -28,7 +30,7 @@ Worker -> controller:  (kind, ..., obs, snap) with kind in
   obs: what the calls since the last message did; snap: ec.ethertype, the table ec.programs refers to,
   fmmu_lock_file.base_addr >> 22, and whether the process is between create_map and obj_pin.
 
-`replay(...)` drives one schedule ([{p, a, c}, ...], a = "crash" kills the process) and then lets
+`replay(...)` drives one schedule ([{p, a, c, f}, ...], a = "crash" kills the process) and then lets
 every participant run to its end (all leave); after every step the shared state is read from the
 private directory.  mode "fmmu": the participants are bare `FMMULock(path)` ... `remove()` users.
 The schedule may come from another protocol than the code's (the earlier, unrepaired ones):
@@ -41,6 +43,7 @@ The schedule may come from another protocol than the code's (the earlier, unrepa
     process that never answers.
 Nothing here judges anything: the events go to TLC (spec/ParallelTrace.tla).
 """
+import errno
 import json
 import multiprocessing
 import os
@@ -80,7 +83,7 @@ def _worker(conn, repo):
     choices = []
     tables = {}                  # handle -> table id
     fdkind = {}
-    S = dict(ec=None, fl=None, inst=False, nexth=100, fb_eth=0x3000, fb_addr=0, root='', name='')
+    S = dict(ec=None, fl=None, fault=False, inst=False, nexth=100, fb_eth=0x3000, fb_addr=0, root='', name='')
 
     def mp(path):
         path = os.fspath(path)
@@ -126,6 +129,15 @@ def _worker(conn, repo):
         if msg[0] != "go":
             os._exit(0)
         choices[:] = list(msg[1])
+        S["fault"] = bool(msg[2]) if len(msg) > 2 else False
+
+    def environment(call):
+        """the kernel-facing calls of the start-up fail when the schedule says so"""
+        if S["fault"]:
+            S["fault"] = False
+            S["inst"] = False                    # the attempt to install is over: the error handler runs
+            note(call, "fault", fault=True)
+            raise OSError(errno.ENOBUFS, "No buffer space available (injected by the schedule)")
 
     def note(call, res="ok", **kw):
         obs.append(dict(call=call, res=res, **kw))
@@ -264,6 +276,7 @@ def _worker(conn, repo):
     # ---- the "kernel": bpf objects and the XDP attachment, shared through files under root
     def create_map(*a, **kw):
         gate("create_map")
+        environment("create_map")
         S["nexth"] += 1
         tables[S["nexth"]] = S['name']
         S["inst"] = True
@@ -273,6 +286,7 @@ def _worker(conn, repo):
     def obj_pin(pathname, fd):
         gate("pin")
         try:
+            environment("pin")
             def pin():
                 f = os.open(mp(pathname), os.O_CREAT | os.O_EXCL | os.O_WRONLY)
                 os.write(f, tables.get(fd, "?").encode())
@@ -283,6 +297,7 @@ def _worker(conn, repo):
 
     def obj_get(pathname):
         gate("obj_get")
+        environment("obj_get")
 
         def get():
             with builtins.open(mp(pathname)) as f:
@@ -294,6 +309,7 @@ def _worker(conn, repo):
 
     async def attach(self, network, *a, **kw):
         gate("attach")
+        environment("attach")
 
         def att():
             with builtins.open(os.path.join(S['root'], "kernel", "attached"), "w") as f:
@@ -312,6 +328,8 @@ def _worker(conn, repo):
         note("close", "ok")
 
     async def connect(self):
+        gate("connect")
+        environment("connect")
         note("connect", "ok")
 
     async def nosleep(t=0, *a):
@@ -472,9 +490,9 @@ class Part:
             self.leaving = True
             self._recv()
 
-    def go(self, choice, probe=()):
+    def go(self, choice, probe=(), fault=False):
         gate_before = self.parked
-        self.conn.send(("go", list(probe) + ([choice] if choice else [])))
+        self.conn.send(("go", list(probe) + ([choice] if choice else []), bool(fault)))
         msg = self._recv()
         self.blocked = (msg[0] == "gate" and msg[1] == gate_before and
                         any(o.get("res") == "blocked" for o in self.obs))
@@ -558,9 +576,14 @@ def status(parts):
     return st
 
 
-def replay(repo, base, schedule, tag="r", drain=True, timeout=10.0, pool=None, mode="run"):
+def replay(repo, base, schedule, tag="r", drain=True, timeout=10.0, pool=None, mode="run", procs=()):
     """run one schedule on the real code; returns dict(ev=[...], drift=n, exc={p: text}).
-    pool: list of idle worker processes kept between calls; mode: see Part.begin.
+    pool: list of idle worker processes kept between calls; mode: see Part.begin; procs: the
+    participants of the scenario (those the schedule has not started yet join afterwards).
+    After the schedule: whoever is in the middle of starting or stopping finishes (error handlers
+    included), the participants that have not started yet start, and only then the running ones
+    leave, one after the other - so what a step of the schedule damaged is met by a newcomer and by
+    a leaver while the others are still inside their contexts.
     A participant that would have to wait in lockf / flock reports "blocked" and stays parked at
     that call: the schedule's step is dropped (nothing happened) and the controller goes on with
     the next step of the schedule - no timeouts are involved."""
@@ -577,7 +600,7 @@ def replay(repo, base, schedule, tag="r", drain=True, timeout=10.0, pool=None, m
         return observe(root, parts, st8["holder"], st8["mutex"])
 
 
-    def step(p, a, c, expected=True):
+    def step(p, a, c, expected=True, f=False):
         w = parts.get(p)
         if w is None:
             w = parts[p] = pool.pop() if pool else Part(repo, timeout)
@@ -592,7 +615,7 @@ def replay(repo, base, schedule, tag="r", drain=True, timeout=10.0, pool=None, m
             for k in ("holder", "mutex"):
                 if st8[k] == p:
                     st8[k] = "none"
-            ev.append(dict(p=p, a="crash", c=0, res="killed", obs=look(),
+            ev.append(dict(p=p, a="crash", c=0, f=False, res="killed", obs=look(),
                            st=status(parts)))
             return True
         if w.final():
@@ -606,7 +629,7 @@ def replay(repo, base, schedule, tag="r", drain=True, timeout=10.0, pool=None, m
             return True
         w.ensure_parked()
         if w.final():                            # an exception before the first gate
-            ev.append(dict(p=p, a="-", c=0, res=w.exc, obs=look(), st=status(parts)))
+            ev.append(dict(p=p, a="-", c=0, f=False, res=w.exc, obs=look(), st=status(parts)))
             return True
         g = w.parked
         if expected and a is not None and g != a:
@@ -632,7 +655,7 @@ def replay(repo, base, schedule, tag="r", drain=True, timeout=10.0, pool=None, m
         probe = []
         if g in ("pread:fmmu", "trunc:fmmu") and w.ph == "starting":
             probe = [b for b in observe(root, parts, "")["fm"]["bits"] if 1 <= b < 512][:1]
-        w.go(c, probe)
+        w.go(c, probe, f)
         drawn = [o["v"] for o in w.obs if o.get("call") == "randrange"]
         res = [o["res"] for o in w.obs if o.get("call") == g]
         for o in w.obs:
@@ -647,27 +670,43 @@ def replay(repo, base, schedule, tag="r", drain=True, timeout=10.0, pool=None, m
         if w.blocked:                            # a lock attempt that has to wait changes nothing
             st8["blocked"] += 1
             return True
-        ev.append(dict(p=p, a=g, c=drawn[-1] if drawn else 0, res=res[0] if res else "?",
+        ev.append(dict(p=p, a=g, c=drawn[-1] if drawn else 0, f=any(o.get("fault") for o in w.obs),
+                       res=res[0] if res else "?",
                        exc=w.exc, obs=look(), st=status(parts)))
         return True
 
     hang = ""
     try:
         for s in schedule:
-            step(s["p"], s["a"], s.get("c", 0))
+            step(s["p"], s["a"], s.get("c", 0), f=bool(s.get("f", False)))
         if drain:
-            budget = 400
-            progress = True
-            while progress and budget > 0:
-                progress = False
-                for p in sorted(parts):
-                    w = parts[p]
-                    while not w.final() and budget > 0:
-                        budget -= 1
-                        step(p, None, 0, expected=False)
-                        if w.blocked:
-                            break
-                        progress = True
+            budget = [600]
+
+            def advance(p, leave):
+                """p runs until it is inside its context (leave: until it has left) or waits"""
+                if p not in parts:
+                    step(p, None, 0, expected=False)
+                w = parts[p]
+                moved = False
+                while not w.final() and budget[0] > 0 and (leave or w.state != "running"):
+                    budget[0] -= 1
+                    step(p, None, 0, expected=False)
+                    if w.blocked:
+                        break
+                    moved = True
+                return moved
+
+            names = sorted(set(parts) | set(procs))
+            for leave in (False, True):
+                progress = True
+                while progress and budget[0] > 0:
+                    progress = False
+                    for p in names:
+                        if p in parts and parts[p].final():
+                            continue
+                        if not leave and p in parts and parts[p].state == "running":
+                            continue
+                        progress = advance(p, leave) or progress
     except Hang as h:
         hang = str(h)
     finally:
